@@ -5,7 +5,7 @@ import pyspec
 from . import C01, common
 
 ID = "C10"
-LEVEL = "other"
+LEVEL = "proof"
 RULE = ("for each operation (Add Sub Mul Quo FMA Set Neg Abs SetMantExp MantExp GobRoundTrip) a group of programs computing the "
         "same mathematical call: a reference with a fresh zero-value receiver and distinct operand variables, every aliasing "
         "shape (z=x, z=y, x=y, z=x=y; for FMA also z=u, x=u, all equal), and receivers pre-loaded with longer/shorter/special "
